@@ -475,6 +475,10 @@ SCEN["flow"] = {
         ("drop-missing", "L.with_tmp(lambda d: X(d + '/c.pkl').drop_cache())", None),
         ("set-context", "L.with_tmp(lambda d: (lambda c: (c._set_context({'a': 1}), "
                         "L.strip_dir(c._filename, d))[1])(X(d + '/{{a}}.pkl')))", None),
+        ("set-context-key-missing", "L.with_tmp(lambda d: (lambda c: (c._set_context({'b': 1}), "
+                                    "L.strip_dir(c._filename, d), c._set_context({'a': 2, 'b': 1}), "
+                                    "L.strip_dir(c._filename, d))[1::2])(X(d + '/{{a}}_{{b}}.pkl')))",
+         None),
         ("alter-sequence", "L.with_tmp(lambda d: (lambda c: [list(c.run(iter([1, 2]))), "
                            "type(X.alter_sequence(c)).__name__, "
                            "list(X.alter_sequence(c)())])(X(d + '/c.pkl')))", None),
@@ -1024,6 +1028,12 @@ SCEN["output"] = {
                         "'csv'}})]))), d))", None),
         ("static", "(lambda w: (w._set_context({'a': 'S'}), w.output_directory)[1])(X('o/{{a}}'))",
          None),
+        # a static context that resolves only some (or none) of the template's keys
+        ("static-key-missing", "(lambda w: (w._set_context({'b': 'S'}), w.output_directory)[1])"
+                               "(X('o/{{a}}'))", None),
+        ("static-one-of-two", "(lambda w: (w._set_context({'a': 'S'}), w.output_directory, "
+                              "w._set_context({'a': 'S', 'b': 'T'}), w.output_directory)[1::2])"
+                              "(X('o_{{a}}/{{b}}'))", None),
         ("empty-filename", "L.with_tmp(lambda d: list(X(d).run(iter([('t', {'output': "
                            "{'filename': ''}})]))))", "LenaRuntimeError"),
         ("both-options", "X('d', existing_unchanged=True, overwrite=True)", "LenaValueError"),
